@@ -1365,7 +1365,9 @@ def c09_stall_session(live, rng, stall_ms, params=None, origin=None):
     t_start = S.now
     S.sockop("l", "ptcp connect l", "connect")
     rb = (params or {}).get("rcvbuf_r", 4096)
-    want = {"l": rb * rng.choice([3, 10, 40]), "r": 0}
+    # (capped: every byte is kept several times over as hex in the recorded operations and replies — a 40 MiB transfer per
+    #  session exhausted the machine's memory in the thorough tier)
+    want = {"l": min(rb * rng.choice([3, 10, 40]), max(3 * rb, 1500000) if rb <= (1 << 17) else 3 * rb // 2), "r": 0}
     todo = dict(want)
     guard = 0
     while S.alive() and (S.now - t_start) % M32 < stall_ms and guard < 4000:
